@@ -404,6 +404,17 @@ def auditedSurgerySites : List (String × String × String) :=
    ("sqlglot/generators/tsql.py", "identifier_sql", "slice"),
    ("sqlglot/generators/tsql.py", "storedprocedure_sql", "strip")]
 
+/-- AUDITED ALLOW-LIST (commit 8b5b272): methods outside the whitespace helpers (sep / seg / indent / wrap / expressions /
+    format_args / generate) whose rendering branches on `self.pretty`.  `values_sql` takes a structurally different path
+    under pretty (VALUES table → UNION ALL subquery for dialects without VALUES-as-table); `case_sql` / `connector_sql`
+    switch the separator when too wide; `create_sql` / `properties_sql` / `copy_sql` / `join_sql` add a separating space
+    only in single-line mode; `datatype_sql` breaks nested types.  Each listed site has a corpus statement that reaches it
+    on every run (line tracer, reported in the evidence) and is compared pretty-vs-default by the search stage. -/
+def auditedPrettyBranches : List (String × String) :=
+  [("sqlglot/generator.py", "case_sql"), ("sqlglot/generator.py", "connector_sql"), ("sqlglot/generator.py", "copy_sql"),
+   ("sqlglot/generator.py", "create_sql"), ("sqlglot/generator.py", "datatype_sql"), ("sqlglot/generator.py", "join_sql"),
+   ("sqlglot/generator.py", "properties_sql"), ("sqlglot/generator.py", "values_sql")]
+
 theorem maybeComment_append (o : Opts) (sql : Str) (cs : List Str) :
     maybeComment o true sql cs = sql ++ maybeComment o true [] cs := by
   simp only [maybeComment, Bool.not_true, Bool.false_eq_true, if_false]
